@@ -15,6 +15,9 @@ from cascade.controller.report import ControllerReport, serialize
 from cascade.low.core import DatasetId
 
 
+PROGS = ["10.00", "50.00", "10.00", "50.00", "90.00"]      # keep in sync with harness/props/c18.py
+
+
 class Sock:
     def __init__(self):
         self.inq: list[bytes] = []
@@ -80,7 +83,7 @@ class World:
             return {"fresh": True}
         if act == "Report":
             _, j, status, ts, res = last
-            st = None if status == "none" else ("Shutdown" if status == "shutdown" else f"{ts}0.00")
+            st = None if status == "none" else ("Shutdown" if status == "shutdown" else PROGS[ts - 1])
             results = [] if res == () else [(DatasetId("t", res[0]), res[1].encode())]
             rep = ControllerReport(self.jid(j), st, ts, results)
             sock = self.router.jobs[self.jid(j)].socket
